@@ -17,8 +17,9 @@ Quantifiers: every operation / every list of operations (any length, any nesting
 `entry_value`), every encoding (address size, format, version — also ones DWARF does not have),
 both byte orders, every offsets function (`none` = no offset yet), every output position, every
 `refs` flag. Hypotheses are the Rust operand types (`OpWf`: `u64`, `i64`, `Register(u16)`, `u8`,
-`u32`; the one genuine restriction is `piece < 2^61` bytes — finding C15-1), "entry offsets and the
-emitted length fit `u64`", and nothing else.
+`u32`), "entry offsets and the emitted length fit `u64`", and nothing else. (A `piece` of 2^61 bytes
+or more — whose size in bits the reader cannot represent — is a write error since the `fix:` for
+finding C15-1: `piece_too_large_rejected`.)
 -/
 namespace Gimli.Props.C15
 open Gimli Gimli.WOp
@@ -113,6 +114,25 @@ theorem op_decode_emit (e : Endian) (enc : Encoding) (uo : UnitOffs) (hasRefs : 
     ∃ img, opImage e enc uo hasRefs offsets pos op = some img ∧
       Op.parse e enc (bs ++ rest) = .ok (img, rest) :=
   opWrite_decode e enc uo hasRefs op offsets pos bs fx rest hoffs hlen hw hwf
+
+/-- **A piece whose size in bits does not fit `u64` is refused** (`ValueTooLarge`, nothing is
+written) instead of being emitted as bytecode the reader rejects with `InvalidPiece` — the `fix:`
+for finding C15-1. Together with `op_decode_emit` (which no longer needs a bound on pieces): every
+`op_piece` either decodes to the piece as built or is a write error. -/
+theorem piece_too_large_rejected (e : Endian) (enc : Encoding) (uo : UnitOffs) (hasRefs : Bool)
+    (offsets : List Nat) (pos n : Nat) (hn : 2 ^ 61 ≤ n) :
+    opWrite e enc uo hasRefs offsets pos (.piece n) = .err .wValueTooLarge := by
+  have hq : ((2:Nat) ^ 64 - 1) / 8 = 2 ^ 61 - 1 := by decide
+  simp only [opWrite, hq]
+  rw [if_pos (by omega)]
+
+/-- and every smaller piece is written (3 to 10 bytes) -/
+theorem piece_written (e : Endian) (enc : Encoding) (uo : UnitOffs) (hasRefs : Bool)
+    (offsets : List Nat) (pos n : Nat) (hn : n < 2 ^ 61) :
+    opWrite e enc uo hasRefs offsets pos (.piece n) = .ok (0x93 :: Leb.encodeU n, []) := by
+  have hq : ((2:Nat) ^ 64 - 1) / 8 = 2 ^ 61 - 1 := by decide
+  simp only [opWrite, hq]
+  rw [if_neg (by omega)]
 
 /-- **A whole expression.** `OperationIter` (`Op.iterAll`) over the bytes `Expression::write`
 emitted yields, in order, exactly the images of the operations as built — as many as were built, no
@@ -304,8 +324,14 @@ example : exprWrite .little ⟨8, .dwarf32, 4⟩ (some fun _ => some 12) true 0
     .ok ([0x4f, 0x10, 0x20, 0xf4, 0x0c, 0x01, 0xff, 0x2f, 0xf6, 0xff, 0x14, 0xf3, 0x05, 0x90, 0x20, 0x28, 0xfb, 0xff], []) := by
   decide
 
-example : OpWf (.registerOffset 65535 (-9223372036854775808)) ∧ OpWf (.piece 2305843009213693951) ∧
-    ¬ OpWf (.piece 2305843009213693952) ∧ OpWf (.simple 0x22) ∧ ¬ OpWf (.simple 0x03) := by decide
+example : OpWf (.registerOffset 65535 (-9223372036854775808)) ∧ OpWf (.piece 18446744073709551615) ∧
+    OpWf (.simple 0x22) ∧ ¬ OpWf (.simple 0x03) := by decide
+
+-- the piece boundary: 2^61 - 1 bytes are written, 2^61 bytes are refused
+example : opWrite .little ⟨8, .dwarf32, 4⟩ none false [] 0 (.piece 2305843009213693951) =
+    .ok ([0x93, 0xff, 0xff, 0xff, 0xff, 0xff, 0xff, 0xff, 0xff, 0x1f], []) := by decide
+example : opWrite .little ⟨8, .dwarf32, 4⟩ none false [] 0 (.piece 2305843009213693952) =
+    .err .wValueTooLarge := by decide
 
 example : isBranchTo (.branch 7) 7 ∧ directRef (.derefType false 4 3) = some 3 ∧
     sectionRef ⟨4, .dwarf64, 2⟩ (.implicitPointer (.entry 1 0) (-1)) = some (.entry 1 0, 4) := by
